@@ -12,6 +12,11 @@ Differential runs (all randomness from ctx.rng):
  (B) candidate branching on the real SEVM: CALLDATALOAD of a size symbol yields one successor per candidate with the
      candidate on the stack and `size == candidate` in the path; a leaf symbol does not branch; a second load in the
      same path does not branch again.
+ (L)  several functions of one contract in one process, each with its own configuration layered the real way (command line,
+     contract `@custom:halmos` via with_natspec, function `@custom:halmos` via with_devdoc — all through the singleton arg
+     parser) with `--array-lengths` annotations naming different parameter subsets, in several orders: the candidates of every
+     dynamic parameter (dyn_params, and the successors of CALLDATALOAD) = the entry for that name in the winning layer, else
+     the defaults; parser level: parsing A then B yields B's own entries only and leaves the Config built from A unchanged.
  (B2) two or three symbolic calldata registered on ONE path — by repeated mk_calldata + process_dyn_params, and by the
      real `cheatcodes.create_calldata_generic` (svm.createCalldata) on a fabricated build output: the path's candidate
      map is the accumulation of all registrations and every size symbol, also of an earlier calldata read after the
@@ -1125,6 +1130,199 @@ def check_multi_registration(ctx, real, g):
 
 # ----------------------------------------------------------------------------------------------------------------
 
+# ----------------------------------------------------------------------------------------------------------------
+# (L) layered configurations: several functions of one contract in ONE process, each with its own config built the
+#     real way — command line -> contract `@custom:halmos` (with_natspec) -> function `@custom:halmos` (with_devdoc) —
+#     through the module-level singleton arg parser; `--array-lengths` annotations mention different parameter subsets.
+#     Size candidates of every dynamic parameter = configured for that name in the winning layer, else the defaults.
+# ----------------------------------------------------------------------------------------------------------------
+
+def render_al(al):
+    return ",".join(f"{k}={{{','.join(map(str, v))}}}" if (len(v) != 1) else f"{k}={v[0]}" for k, v in al.items())
+
+
+def render_layer(layer):
+    """layer: {"al": dict|None, "da": list|None, "db": list|None} -> option string"""
+    parts = []
+    if layer.get("al") is not None:
+        parts += ["--array-lengths", render_al(layer["al"])]
+    if layer.get("da") is not None:
+        parts += ["--default-array-lengths", ",".join(map(str, layer["da"]))]
+    if layer.get("db") is not None:
+        parts += ["--default-bytes-lengths", ",".join(map(str, layer["db"]))]
+    return " ".join(parts)
+
+
+def effective_cfg(cli, contract, fn):
+    """option-wise precedence: command line (5) > function annotation (4) > contract annotation (3) > default (1)"""
+    out = {"al": {}, "da": [0, 1, 2], "db": [0, 65, 1024]}
+    for layer in (contract, fn, cli):
+        for k in ("al", "da", "db"):
+            if layer.get(k) is not None:
+                out[k] = layer[k]
+    return out
+
+
+LAYER_TYPES = {"bytes": "bytes", "string": "string", "uint256[]": ("darr", ("uint", 256)), "bytes[]": ("darr", "bytes"),
+               "uint8": ("uint", 8)}
+
+
+def check_parser_isolation(ctx, real, g):
+    """parser level: parsing annotation A and then B through the singleton parser gives B exactly its own entries, and
+    leaves the namespace / Config obtained from A unchanged"""
+    import copy
+    import shlex
+
+    from halmos.config import ConfigSource, arg_parser, default_config
+    r = ctx.rng
+    for _ in range(ctx.scale(60, 1000)):
+        seq = []
+        for _ in range(r.randint(2, 4)):
+            names = r.sample(["a", "b", "c", "d", "a[0]", "xs", "data"], r.randint(0, 3))
+            al = {n: g.cand(r.random() < 0.5) for n in names} if (names or r.random() < 0.5) else None
+            if al == {}:
+                al = None       # an empty --array-lengths value is not expressible; the option is simply absent
+            seq.append({"al": al, "da": g.cand(True) if r.random() < 0.3 else None, "db": None})
+        held = []
+        for i, layer in enumerate(seq):
+            text = render_layer(layer)
+            ns = arg_parser().parse_args(shlex.split(text))
+            cfgobj = default_config().with_overrides(ConfigSource.function_annotation, **vars(ns))
+            got = ns.array_lengths
+            ctx.case(("parser-seq", json.dumps(seq), i))
+            ctx.count(f"parser-isolation:parse#{min(i, 3)}")
+            rj = {"kind": "parser", "seq": seq, "index": i}
+            if got != layer["al"]:
+                ctx.violation("C12:array-lengths-of-earlier-parse-leak-into-later-parse",
+                              f"parsing {[render_layer(x) for x in seq[:i + 1]]} in one process: the last parse yields array_lengths={got}, "
+                              f"alone it yields {layer['al']}", rj)
+            want_eff = layer["al"] if layer["al"] is not None else {}
+            if cfgobj.array_lengths != want_eff:
+                ctx.violation("C12:array-lengths-of-earlier-parse-leak-into-later-parse",
+                              f"Config from annotation {text!r} after {[render_layer(x) for x in seq[:i]]}: array_lengths="
+                              f"{cfgobj.array_lengths}, expected {want_eff}", rj)
+            held.append((ns, cfgobj, copy.deepcopy(got), copy.deepcopy(cfgobj.array_lengths)))
+            for j, (ns0, cfg0, snap_ns, snap_cfg) in enumerate(held[:-1]):
+                if ns0.array_lengths != snap_ns or cfg0.array_lengths != snap_cfg:
+                    ctx.violation("C12:earlier-config-mutated-by-later-array-lengths-parse",
+                                  f"Config built from parse #{j} ({render_layer(seq[j])!r}) had array_lengths={snap_cfg}, after parse #{i} "
+                                  f"({text!r}) it reads {cfg0.array_lengths}", rj)
+
+
+def check_layered_configs(ctx, real, g):
+    import copy
+    import shlex
+
+    from halmos.__main__ import mk_solver, with_devdoc, with_natspec
+    from halmos.config import ConfigSource, arg_parser, default_config
+    from halmos.sevm import SEVM, Path
+    hc = real.hc
+    r = ctx.rng
+    reqs, plan = [], []
+    for it in range(ctx.scale(40, 600)):
+        nf = r.randint(2, 4)
+        pool = ["a", "b", "c", "d"]
+        funs = []
+        for fi in range(nf):
+            ps = r.sample(pool, r.randint(1, 3))
+            inputs = [{"name": nm, "type": r.choice(["bytes", "string", "uint256[]", "bytes[]", "uint8"] if i else
+                                                     ["bytes", "string", "uint256[]", "bytes[]"])} for i, nm in enumerate(ps)]
+            # annotation mentions a subset of the parameters (possibly none, possibly names of OTHER functions' parameters)
+            mention = [nm for nm in pool if r.random() < 0.4]
+            al = {}
+            for nm in mention:
+                ty = next((i["type"] for i in inputs if i["name"] == nm), "uint256[]")
+                al[nm] = g.cand(ty.endswith("]"))
+                if ty == "bytes[]" and r.random() < 0.5:
+                    al[nm + "[0]"] = g.cand(False)
+            fn_layer = {"al": al or None, "da": g.cand(True) if r.random() < 0.2 else None,
+                        "db": [r.choice([0, 1, 32, 33, 65])] if r.random() < 0.2 else None}
+            if r.random() < 0.2:
+                fn_layer = {"al": None, "da": None, "db": None}     # no annotation at all
+            funs.append((f"fn{fi}", inputs, fn_layer))
+        small = lambda: [r.choice([0, 1, 2, 3]) for _ in range(r.randint(1, 3))]  # noqa: E731  (fits arrays and bytes alike)
+        contract_layer = {"al": ({r.choice(pool): small()} if r.random() < 0.3 else None),
+                          "da": g.cand(True) if r.random() < 0.3 else None, "db": None}
+        cli_layer = {"al": ({r.choice(pool): small()} if r.random() < 0.12 else None),
+                     "da": None, "db": [r.choice([0, 1, 32, 33, 65]) for _ in range(r.randint(1, 2))] if r.random() < 0.5 else None}
+        items = [{"type": "function", "name": n, "stateMutability": "nonpayable", "inputs": inp} for n, inp, _ in funs]
+        sigs = [n + "(" + ",".join(i["type"] for i in inp) + ")" for n, inp, _ in funs]
+        methods = {sig: {"custom:halmos": render_layer(l)} for sig, (_, _, l) in zip(sigs, funs) if render_layer(l)}
+        contract_json = {"abi": items, "metadata": {"output": {"devdoc": {"methods": methods}}}}
+        natspec = {"text": f"some contract @custom:halmos {render_layer(contract_layer)}"} if render_layer(contract_layer) else None
+        # the real layering, one process, singleton parser
+        base = default_config().with_overrides(ConfigSource.command_line,
+                                               **vars(arg_parser().parse_args(shlex.split(render_layer(cli_layer)))))
+        order = list(range(nf))
+        r.shuffle(order)
+        if it % 3 == 0:
+            order = order + [order[0]]          # the first function once more after the others
+        abi = hc.get_abi(contract_json)
+        cnt = itertools.count()
+        hc.uid = lambda: f"{next(cnt):07x}"
+        held = []
+        try:
+            for pos, fi in enumerate(order):
+                fname, inputs, fn_layer = funs[fi]
+                cargs = with_natspec(base, "Tgt", natspec)
+                fargs = with_devdoc(cargs, sigs[fi], contract_json)
+                c2 = itertools.count(1)
+                cd, dyn = hc.mk_calldata(abi, hc.FunctionInfo("Tgt", fname, sigs[fi], "%08x" % (0xB0000000 + fi)), fargs,
+                                         lambda: next(c2))
+                eff = effective_cfg(cli_layer, contract_layer, fn_layer)
+                top = ("tuple", [(i["name"], LAYER_TYPES[i["type"]]) for i in inputs])
+                _, want_dyn = leaves_estimate(top, eff)
+                got = [(d.name, list(d.size_choices)) for d in dyn]
+                want = [(p, list(s)) for p, s, _ in want_dyn]
+                rj = {"kind": "layered", "funs": funs, "contract": contract_layer, "cli": cli_layer, "order": order, "pos": pos}
+                ctx.case(("layered", json.dumps(rj, sort_keys=True)))
+                ctx.count(f"layered:function#{min(pos, 4)}-in-process")
+                ctx.count("layered:annotation-" + ("with-array-lengths" if fn_layer["al"] else "without-array-lengths"))
+                if got != want:
+                    ctx.violation("C12:layered-config-candidates-differ-from-configured",
+                                  f"{sigs[fi]} processed #{pos} in one process (function annotation {render_layer(fn_layer)!r}, contract "
+                                  f"{render_layer(contract_layer)!r}, cli {render_layer(cli_layer)!r}): dyn_params {got} != configured "
+                                  f"(name's entry in the winning layer, else defaults) {want}", rj)
+                else:
+                    # the explored candidates on the real SEVM, for one size symbol
+                    if dyn and r.random() < 0.35:
+                        d = r.choice(dyn)
+                        items_ser = real.ser(cd)
+                        offs = offsets_of(items_ser)
+                        sym = d.size_symbol.decl().name()
+                        path = Path(mk_solver(fargs))
+                        path.process_dyn_params(dyn)
+                        sevm = SEVM(fargs, hc.FunctionInfo("Tgt", fname, sigs[fi], "b0000000"))
+                        res = _run_loads(sevm, cd, path, [offs[sym]])
+                        gotb = sorted((w, conds) for w, conds, err in res)
+                        expb = sorted(([c], [f"{sym} == {c}"]) for c in dict(want)[d.name])
+                        ctx.count("layered:branch-probe")
+                        if gotb != expb:
+                            ctx.violation("C12:calldataload-candidates-not-all-branched:layered",
+                                          f"{sigs[fi]}: CALLDATALOAD of {sym}: successors {gotb[:5]} expected {expb[:5]}", rj)
+                    # the Lean model with the effective configuration
+                    c = mk_case(top, eff, ["ctr"], ["ctr", 1], "%08x" % (0xB0000000 + fi), "layered")
+                    plan.append((c, real.ser_dyn(dyn), sigs[fi]))
+                    reqs.append(lean_create_req(c))
+                # earlier configs must not change
+                snap = (copy.deepcopy(fargs.array_lengths), copy.deepcopy(fargs.default_array_lengths), copy.deepcopy(fargs.default_bytes_lengths))
+                for (f0, s0, sig0) in held:
+                    now = (f0.array_lengths, f0.default_array_lengths, f0.default_bytes_lengths)
+                    if now != s0:
+                        ctx.violation("C12:earlier-config-mutated-by-later-array-lengths-parse",
+                                      f"config of {sig0} was {s0}, after building the config of {sigs[fi]} it reads {now}", rj)
+                held.append((fargs, snap, sigs[fi]))
+                cnt = itertools.count()
+                hc.uid = lambda: f"{next(cnt):07x}"
+        finally:
+            hc.uid = real.orig_uid
+    # uid restarts per function, so the model's names match
+    for (c, dyn, sig), rep in zip(plan, ctx.lean("Abi").ask(reqs)):
+        rep = json.loads(rep)
+        if rep.get("dyn") != dyn:
+            raise RuntimeError(f"model/implementation mismatch (layered config) on {sig} cfg={c.cfg}: model {rep.get('dyn')} real {dyn}")
+
+
 def wrap_dims(t, dims):
     """dims innermost first: None = [], k = [k]"""
     for d in dims:
@@ -1245,6 +1443,8 @@ def correspond(ctx):
     check_real_uid(ctx, real, g)
     check_branching(ctx, real, g)
     check_multi_registration(ctx, real, g)
+    check_parser_isolation(ctx, real, g)
+    check_layered_configs(ctx, real, g)
 
     if model_bad:
         c, what, rep, got = model_bad[0]
@@ -1325,6 +1525,10 @@ def replay(ctx, data) -> bool:
         return res[0] != "err"
     elif kind == "empty":
         return real.create(rp["inputs"], rp["cfg"], "01020304", ["ctr"], ["none"])[0] != "err"
+    elif kind == "parser":
+        check_parser_isolation(ctx, real, Gen(ctx.rng, harvest_literals()))
+    elif kind == "layered":
+        check_layered_configs(ctx, real, Gen(ctx.rng, harvest_literals()))
     elif kind == "multi":
         g = Gen(ctx.rng, harvest_literals())
         check_multi_registration(ctx, real, g)
